@@ -1,5 +1,5 @@
 """Human-written manifest texts per property."""
-HOOK_COMMITS = ["116d336", "8bafbd8"]
+HOOK_COMMITS = ["116d336", "8bafbd8", "50a8b9e"]
 
 NOT_BUILT = "not claimed yet: model/theorems/correspondence for this property are not built in this round (planned in DESIGN.md section 7); the technique applies"
 
